@@ -102,6 +102,22 @@ pub fn client_main() {
                 },
                 None => json!({"error": "not connected"}),
             },
+            "runahead" => match tx.as_ref() {
+                // many multi-packet messages in a row, far more than the kernel queues: the sends block until the
+                // server has accepted and reads
+                Some(s) => {
+                    let (x0, n) = (geti(&cmd, "x") as u64, geti(&cmd, "n") as u64);
+                    let mut res = json!({"res": "ok", "sent": n});
+                    for k in 0..n {
+                        if let Err(e) = s.send(make(x0 + k, true, false)) {
+                            res = json!({"res": "err", "sent": k, "detail": format!("{:?}", e)});
+                            break;
+                        }
+                    }
+                    res
+                },
+                None => json!({"error": "not connected"}),
+            },
             "exit" => {
                 out_line(&json!({"res": "bye"}));
                 std::process::exit(0);
@@ -323,6 +339,51 @@ fn behaviour(b: &Value, mode: &str, all_names: &mut HashSet<String>) -> Value {
                     let (p, d) = fs_state(&s.name);
                     if p || d {
                         return fail(n, op, format!("after accept returned the socket path exists={} its directory exists={}", p, d));
+                    }
+                }
+            },
+            "runahead" => {
+                // process clients only: the command is issued and not waited for
+                let s = srvs.get_mut(&i).unwrap();
+                match &mut s.client {
+                    Client::Proc(_, stdin, _) => {
+                        let _ = writeln!(stdin, "{}", json!({"op": "runahead", "x": geti(op, "x"), "n": geti(op, "n")}));
+                        let _ = stdin.flush();
+                    },
+                    _ => return fail(n, op, "runahead needs a process client".into()),
+                }
+            },
+            "sleep" => std::thread::sleep(Duration::from_millis(geti(op, "ms") as u64)),
+            "recvn" => {
+                let s = srvs.get_mut(&i).unwrap();
+                let (from, cnt) = (geti(op, "from") as u64, geti(op, "n") as u64);
+                for x in from..from + cnt {
+                    let rx = s.rx.take().unwrap();
+                    let r = with_watchdog(20_000, move || {
+                        let m = rx.recv();
+                        (rx, m)
+                    });
+                    match r {
+                        Ok(Ok((rx, Ok(m)))) => {
+                            s.rx = Some(rx);
+                            if let Some(why) = check(&m, x, true, false) {
+                                return fail(n, op, format!("message {} of a client that ran ahead of accept: {}", x, why));
+                            }
+                        },
+                        Ok(Ok((_, Err(e)))) => return fail(n, op, format!(
+                            "the receiver from accept ended before message {} of a client that ran ahead: {:?}", x, e)),
+                        _ => return fail(n, op, format!("message {} of a client that ran ahead never arrived (20 s)", x)),
+                    }
+                }
+            },
+            "collect" => {
+                let s = srvs.get_mut(&i).unwrap();
+                if let Client::Proc(_, _, stdout) = &mut s.client {
+                    let mut line = String::new();
+                    let _ = stdout.read_line(&mut line);
+                    let v: Value = serde_json::from_str(line.trim()).unwrap_or(json!({"res": "none"}));
+                    if gets(&v, "res") != "ok" {
+                        return fail(n, op, format!("a send of the client that ran ahead of accept failed: {}", v));
                     }
                 }
             },
